@@ -367,6 +367,12 @@ func FaultCheck() {
 			"in addition, with mrp's automatic retry (attemptRetry + restart mirrored by the harness): every job dies from a signal on its first 1 / 2 / all attempts with 1 or 2 retries allowed - it must recover exactly when the failures fit the retries, run the failing job once per attempt and nothing else twice, otherwise end failed naming the stage - and a stage-raised error is never retried. "+
 			"non-trivial = the fault site was reached"
 		r.Set("shapes", len(shapes))
+		if os.Getenv("VERIF_NO_TIERB") == "" {
+			if _, err := TierBRoot(); err != nil {
+				fmt.Println(err)
+				os.Exit(2)
+			}
+		}
 		r.RunWorkers(0)
 		r.Assume("metadata-level manifestations only (what mrjob/the job manager would have written); process-level faults (signals, exit codes through real mrjob) are tier B")
 		r.Assume("extra output keys and ill-typed chunk-level outputs are fatal only at --strict=error (unspecified below)")
@@ -485,6 +491,7 @@ func FaultCheck() {
 				What: fmt.Sprintf("%s, job %s fault %s enforce=%s schedule %s: %s", it.c.Shape.Name(), it.c.Fault.Job, it.c.Fault.Kind, it.c.Enforce, it.c.Schedule.String(), v), Case: c})
 		}
 	}
+	TierBFaults(r)
 	r.Done()
 }
 
